@@ -263,6 +263,15 @@ class Gen:
                 continue
             item[m] = self.operation(names, f"{m}{seg.capitalize()}{'ById' if with_id else ''}{k}", [seg[:-1] + "_id"] if with_id else [])
             k += 1
+        # a path-template variable that is NOT declared under `parameters` (the generator adds the argument itself)
+        # next to an optional parameter: the added required argument must not land behind defaulted ones
+        if self.extra is not None and self.extra.random() < 0.4:
+            cands = [(pth, op) for pth, item in paths.items() if "{" in pth for op in item.values()]
+            if cands:
+                pth, op = self.extra.choice(cands)
+                op["parameters"] = [q for q in op["parameters"] if q.get("in") != "path"]
+                if not any(not q.get("required") for q in op["parameters"]):
+                    op["parameters"].append({"name": "page_size", "in": "query", "required": False, "schema": {"type": "integer"}})
         # one tag spelled in two ways that normalise to the same key but give different module / argument names
         # (datasources vs DataSources), used by unequal numbers of operations: every emitter must pick the same spelling
         all_ops = [op for item in paths.values() for op in item.values()]
@@ -733,6 +742,10 @@ def extract_module(src: str, cur: list[str], is_pkg: bool) -> list:
                     # relative import that climbs above the top-level package: CPython raises ImportError; in the
                     # model it is an import of a module below the own top-level name that does not exist
                     target = [cur[0], "<beyond-top-level>"]
+                if target and target[0] == "pyopenapi_gen":
+                    # the generator is not installed where a client runs (the import driver blocks it): in the model,
+                    # a module below the own top-level name that does not exist (ModuleNotFoundError)
+                    target = [cur[0], "<pyopenapi_gen>"] + target[1:]
                 if any(a.name == "*" for a in s.names):
                     out.append(("star", target))
                 else:
